@@ -13,11 +13,16 @@
      * the same for Radius / KNearest / LSHNearest over LinGreedy or LinUCB (the worker's copy keeps only private generator
        copies, which these two policies never read: LinForget + LinSim), and for Clusters over every learning policy except
        LinTS (the per-cluster policies are only queried; a query leaves nothing behind that a later query reads);
+     * TRAINING (FitOrder.v): _parallel_fit runs one _fit_arm task per arm in shared memory; a task reads the batch and the arm's own
+       entries (and UCB1's total_count, written before the tasks start) and writes only the arm's own entries, so two tasks for
+       different arms COMMUTE and the fitted state is the same for EVERY completion order of the tasks - for the six context-free
+       policies (fit_independent_of_task_order) and for TreeBandit's per-arm leaf tables (tree_fit_independent_of_task_order).
+       Tasks are atomic in the model (joblib runs a task to completion in one worker); the linear policies' tasks are checked by
+       permuting them on the implementation.
     ..._partial: what the model cannot exhibit is named in DESIGN.md: OS scheduling inside joblib, process
-    boundaries, and the completion order of the shared-memory fit tasks (checked by permuting the tasks on the
-    implementation). TreeBandit (finding D7) and LinTS under a neighbourhood (finding D8) are refuted on the code. *)
+    boundaries, pre-emption inside a task. TreeBandit (finding D7) and LinTS under a neighbourhood (finding D8) are refuted on the code. *)
 From Coq Require Import List ZArith Bool Arith QArith Qcanon Permutation.
-From MW Require Import Num Assoc AssocFacts Rng Par CF CFInv CFClean CFForget CFSpec Matrix Lin Warm WarmInv Nbr NbrFacts NbrIndep LshFacts Clu Tree CellFacts Mab FacadeCF FacadeArms MoreFacts NumLaws CFAlg Sim Extra QcInst OrderFacts ExpIrrel LinInv FacadeLin LpInv NbrInv CluTreeInv FacadeAll ToyFacts C09All C10All LinForget LinSim MatrixFacts LinSpec NbrIndepGen CluIndep.
+From MW Require Import Num Assoc AssocFacts Rng Par CF CFInv CFClean CFForget CFSpec Matrix Lin Warm WarmInv Nbr NbrFacts NbrIndep LshFacts Clu Tree CellFacts Mab FacadeCF FacadeArms MoreFacts NumLaws CFAlg Sim Extra QcInst OrderFacts ExpIrrel LinInv FacadeLin LpInv NbrInv CluTreeInv FacadeAll ToyFacts C09All C10All LinForget LinSim MatrixFacts GaussJordan LinSpec NbrIndepGen CluIndep C17Lin WarmIdem C14More LshScale TreeLeaf Rename PopSpec CopyFacts StatFacts CluBatch LinWarm FitOrder.
 Import ListNotations.
 
 Theorem C05_effective_jobs_in_range :
@@ -96,6 +101,71 @@ Theorem C05_clusters_predict_independent_of_partition :
   clu_predict N aeqb RG s g cx assign sizes p = clu_predict N aeqb RG s g cx assign [length cx] p.
 Proof. exact @clu_predict_partition_independent. Qed.
 Print Assumptions C05_clusters_predict_independent_of_partition.
+
+Theorem C05_per_arm_fit_tasks_commute :
+  forall (R A : Type) (N : Num R) (aeqb : A -> A -> bool),
+  (forall x y : A, aeqb x y = true <-> x = y) ->
+  forall (s : (@cf R A)) (a b : A) (ds : list A) (rs : list R),
+  keys_ok s ->
+  a <> b ->
+  In a (c_arms s) ->
+  In b (c_arms s) ->
+  cf_fit_arm N aeqb (cf_fit_arm N aeqb s a ds rs) b ds rs =
+  cf_fit_arm N aeqb (cf_fit_arm N aeqb s b ds rs) a ds rs.
+Proof. exact @fit_arm_tasks_commute. Qed.
+Print Assumptions C05_per_arm_fit_tasks_commute.
+
+Theorem C05_fit_independent_of_task_completion_order :
+  forall (R A : Type) (N : Num R) (aeqb : A -> A -> bool),
+  (forall x y : A, aeqb x y = true <-> x = y) ->
+  forall order order' : list A,
+  Permutation order order' ->
+  forall (s : (@cf R A)) (ds : list A) (rs : list R),
+  keys_ok s ->
+  NoDup order ->
+  (forall a : A, In a order -> In a (c_arms s)) ->
+  fit_in_order N aeqb s order ds rs = fit_in_order N aeqb s order' ds rs.
+Proof. exact @fit_independent_of_task_order. Qed.
+Print Assumptions C05_fit_independent_of_task_completion_order.
+
+Theorem C05_parallel_fit_is_any_task_order :
+  forall (R A : Type) (N : Num R) (aeqb : A -> A -> bool),
+  (forall x y : A, aeqb x y = true <-> x = y) ->
+  forall (s : (@cf R A)) (order ds : list A) (rs : list R),
+  keys_ok s ->
+  Permutation (c_arms s) order -> cf_parallel_fit N aeqb s ds rs = fit_in_order N aeqb s order ds rs.
+Proof. exact @parallel_fit_is_any_task_order. Qed.
+Print Assumptions C05_parallel_fit_is_any_task_order.
+
+Theorem C05_tree_fit_tasks_commute :
+  forall (R A : Type) (aeqb : A -> A -> bool),
+  (forall x y : A, aeqb x y = true <-> x = y) ->
+  forall (leaf : A -> list R -> nat) (lv : list (A * list (nat * list R))) (a b : A) 
+    (ds : list A) (rs : list R) (cx : (@mat R)),
+  a <> b ->
+  In a (akeys lv) ->
+  In b (akeys lv) ->
+  tree_fit_arm aeqb leaf (tree_fit_arm aeqb leaf lv a ds rs cx) b ds rs cx =
+  tree_fit_arm aeqb leaf (tree_fit_arm aeqb leaf lv b ds rs cx) a ds rs cx.
+Proof. exact @tree_fit_tasks_commute. Qed.
+Print Assumptions C05_tree_fit_tasks_commute.
+
+Theorem C05_tree_fit_independent_of_task_completion_order :
+  forall (R A : Type) (aeqb : A -> A -> bool),
+  (forall x y : A, aeqb x y = true <-> x = y) ->
+  forall (leaf : A -> list R -> nat) (ds : list A) (rs : list R) (cx : (@mat R)) (order order' : list A),
+  Permutation order order' ->
+  forall lv : list (A * list (nat * list R)),
+  NoDup order ->
+  (forall a : A, In a order -> In a (akeys lv)) ->
+  fold_left
+    (fun (lv0 : list (A * list (nat * list R))) (a : A) => tree_fit_arm aeqb leaf lv0 a ds rs cx) order
+    lv =
+  fold_left
+    (fun (lv0 : list (A * list (nat * list R))) (a : A) => tree_fit_arm aeqb leaf lv0 a ds rs cx) order'
+    lv.
+Proof. exact @tree_fit_independent_of_task_order. Qed.
+Print Assumptions C05_tree_fit_independent_of_task_completion_order.
 
 Example C05_partition_example : partition_sizes 7 3 = [3; 2; 2]%nat /\ starts (partition_sizes 7 3) = [0; 3; 5; 7]%nat.
 Proof. split; reflexivity. Qed.
